@@ -327,3 +327,14 @@ def run(ck: Checker):
     ck.floor('C01.SEM-SIB', 100)
     apply_rules(ck)
     ck.floor('C01.APPLY', 18)
+    # the topological evaluator and per-gate truth tables walk the users index: gates with repeated operands must be indexed once per occurrence
+    ck.rule('C01.IDX', 'adding a gate registers it as a user of each operand once per occurrence (top_sort counts operands with multiplicity; shared with C02.IDX)')
+    from .C02 import fold_primitives
+    fold_primitives(ck, den, R='C01.IDX', which=('emplace',))
+    # synthesis truth-table codes as used by the basis restriction of the SAT encoding
+    from . import C06 as _c06
+    F = _c06.Finder(repo, den)
+    opn = F.interp.global_value(F.mod, 'Operation')
+    code = {k: v.value for k, v in opn.members.items()}
+    _c06.check_instance(ck, F, [[False, False, True, False]], 1, [opn.members['and_'], opn.members['gt_']], {code['and_'], code['gt_']}, 'C01.SEM-SIB',
+                        'synthesis codes: encoding n=2 gates=1 basis=[and_, gt_] model=0010')
